@@ -1898,7 +1898,14 @@ class _Simu(_IObserver, _params.Updatable, ABC):
         if self.isNonLinear:
             # dofsValues = dofsValues - u
             # set incremental dof values
-            dofsValues -= self._Solver_Get_Newton_Raphson_current_solution()[dofs]
+            # A dof entered several times holds the sum of its entries, so the
+            # current solution is subtracted once per dof, not once per entry.
+            _, firstEntry = np.unique(dofs, return_index=True)
+            u_dofs = np.zeros_like(dofsValues)
+            u_dofs[firstEntry] = self._Solver_Get_Newton_Raphson_current_solution()[
+                dofs[firstEntry]
+            ]
+            dofsValues -= u_dofs
 
         if algo == AlgoType.euler_explicit:
             # the solve variable is a^n: constrained DOFs have zero acceleration
